@@ -9,7 +9,7 @@ from props import fam_sym
 
 MANIFEST = dict(
     technique='Coq proof (PIR/FASTA reader total and in bounds, triplet parser terminates, Hall-symbol interpreter in bounds, for every byte string) + exact differential check of the modelled parsers on arbitrary bytes + sanitizer-instrumented runs of every reader entry point',
-    text='Besides ASan+UBSan, every whole sample file goes through every reader under valgrind/memcheck in a build without sanitizers (accesses inside libstdc++ and uses of uninitialised values are visible only there). Theorems for ALL byte strings: read_pir_or_fasta never indexes outside its string or an empty vector and always returns or throws; parse_triplet and parse_triplet_part terminate (the loop consumes at least one byte per iteration); the Hall-symbol interpreter (symops_from_hall incl. change of basis and Dimino closure) never indexes Op::tran outside {0,1,2} (the model makes the index explicit; the snapshot wrote tran[-120]). The models of the triplet parser, Hall-symbol interpreter (incl. Dimino closure) and space-group name lookup are compared exactly (value or exception) with gemmi on arbitrary, grammar-derived and mutated byte strings; the Hall model predicted an out-of-bounds write that was confirmed under UBSan and repaired. Memory safety, termination and resource limits of the remaining C++ readers are NOT theorems: every entry point named by the property (CIF at 3 check levels, mmJSON, PDB with options, XDS_ASCII, PIR/FASTA, triplets, Hall symbols, names, selections, and the block->structure / small structure / chemical component / reflection-table conversions) is run under ASan+UBSan with a 10 s alarm on random bytes, grammar-derived texts, seeded byte/line mutations and truncation points of every sample file under /repo/tests; outcome classes OK/EXC are accepted, CRASH/TIMEOUT are violations with the input as replay.',
+    text='parse_operation_expr (oper_expression of assemblies; Readers/OperExpr.v, compared exactly with the function of src/mmcif.cpp, which a harness translation unit includes textually because it lives in an anonymous namespace) is proved to stop on every byte string, never to ask for a substring beyond the end of the text, and - after the repair - to return at most a million names plus the length of the text; the unbounded expansion of the snapshot is refuted by 1-2000000000. Besides ASan+UBSan, every whole sample file goes through every reader under valgrind/memcheck in a build without sanitizers (accesses inside libstdc++ and uses of uninitialised values are visible only there). Theorems for ALL byte strings: read_pir_or_fasta never indexes outside its string or an empty vector and always returns or throws; parse_triplet and parse_triplet_part terminate (the loop consumes at least one byte per iteration); the Hall-symbol interpreter (symops_from_hall incl. change of basis and Dimino closure) never indexes Op::tran outside {0,1,2} (the model makes the index explicit; the snapshot wrote tran[-120]). The models of the triplet parser, Hall-symbol interpreter (incl. Dimino closure) and space-group name lookup are compared exactly (value or exception) with gemmi on arbitrary, grammar-derived and mutated byte strings; the Hall model predicted an out-of-bounds write that was confirmed under UBSan and repaired. Memory safety, termination and resource limits of the remaining C++ readers are NOT theorems: every entry point named by the property (CIF at 3 check levels, mmJSON, PDB with options, XDS_ASCII, PIR/FASTA, triplets, Hall symbols, names, selections, and the block->structure / small structure / chemical component / reflection-table conversions) is run under ASan+UBSan with a 10 s alarm on random bytes, grammar-derived texts, seeded byte/line mutations and truncation points of every sample file under /repo/tests; outcome classes OK/EXC are accepted, CRASH/TIMEOUT are violations with the input as replay.',
     note='Trusted: Coq kernel; extraction; harness; ASan/UBSan. No axioms. PARTIAL by nature: safety of PEGTL, sajson and the conversion code is observed by the sanitizer run (testing), not proved. Signed-integer-overflow reports in number parsing of absurdly long digit strings are treated as crashes too.')
 
 KINDS_FOR_EXT = {
@@ -206,6 +206,40 @@ def run(chk):
             chk.violate('crash', 'C02 %s in modelled parser: %s' % (kind, line[:300]), err,
                         replay={'harness': 'h_sym' if fam == 'sym' else 'h_readers', 'line': line})
 
+    # (1b) parse_operation_expr (model Readers/OperExpr.v): grammar-derived expressions (lists, ranges, brackets, products,
+    # names), ranges around the cap of a million and around INT_MAX / 2^32, unbalanced brackets, arbitrary bytes
+    olines = []
+    atoms = ['1', '2', '60', 'X0', 'a', '', ' 3', '1-3', '5-2', '1-60', '3-3', '0-0', '1-1000000', '1-1000001', '2-1000001',
+             '999990-1999990', '999990-1999991', '2147483647-2147483647', '2147483640-2147483647', '4294967297-4294967299',
+             '1-2000000000', '-5', '1-', '-', '1--3', '1-2-3', 'P', '1 - 3', '7-x', 'x-7']
+    for _ in range(600 if quick else 30000):
+        r = rng.random()
+        if r < 0.15:
+            t = bytes(rng.choice(b'(),-0123456789 aX') for _ in range(rng.randint(0, 12)))
+        elif r < 0.2:
+            t = bytes(rng.randrange(256) for _ in range(rng.randint(0, 10)))
+        else:
+            body = ','.join(rng.choice(atoms) for _ in range(rng.choice([1, 1, 2, 3, 5])))
+            form = rng.choice(['%s', '%s', '(%s)', '(%s)', '(%s', '%s)', '(%s)(%s)', '((%s))', '(%s),4', '1,(%s)'])
+            t = (form % ((body,) * form.count('%s'))).encode()
+        if b'\x00' in t:
+            continue
+        olines.append('operexpr\t' + (fam_sym.hx(t) if t else '-'))
+    res = vlib.correspond(chk, F.harness_oper(), d, olines, timeout=3000)
+    for l in res['outputs']:
+        p = l.split('\t')
+        if len(p) == 3:
+            chk.case(p[0] + p[1], p[2] != 'EXC', bucket='model:' + p[0] + (':EXC' if p[2] == 'EXC' else ''),
+                     sample={'cmd': p[0], 'input_hex': p[1][:80], 'impl': p[2][:80]} if chk.evaluations % 499 == 0 else None)
+    for (cmd, args, impl, model) in res['mismatches']:
+        chk.violate('correspondence', 'operation-expression model disagrees with gemmi on ' + args[:80],
+                    'input=%s impl=%s model=%s' % (args, impl[:200], model[:200]),
+                    replay={'harness': 'h_oper', 'line': cmd + '\t' + args},
+                    found_input=(model == 'OUT-OF-FUEL' or impl in ('CRASH', 'TIMEOUT')))
+    for (line, kind, err) in res['crashes']:
+        chk.violate('crash', 'C02 %s in parse_operation_expr: %s' % (kind, line[:300]), err,
+                    replay={'harness': 'h_oper', 'line': line})
+
     # (2) every entry point under sanitizers: small inputs + sample files (truncations, mutations)
     lines = [l for (l, k, b) in small]
     files = sample_files()
@@ -236,7 +270,7 @@ def run(chk):
     rc_, out_, err_ = vlib.run_lines(h, [], inp=''.join('cifcount\t%s\n' % p_ for p_ in cif_files).encode())
     # indices of the integer-flavoured special values, and of the list / range / parenthesised spellings that columns
     # such as _pdbx_struct_assembly_gen.oper_expression accept in place of a number (1-2, (1-3)(4,5), (X0)(1-60), 1,2,,3)
-    INT_VALS = [0, 1, 2, 3, 4, 5, 6, 7, 8, 9, 12, 25, 26, 22, 23, 24, 34]
+    INT_VALS = [0, 1, 2, 3, 4, 5, 6, 7, 8, 9, 12, 25, 26, 22, 23, 24, 34, 43, 44, 45, 46]
     for p_, l in zip(cif_files, out_):
         try:
             ncol, flags = l.split('\t')[2].split()
@@ -250,9 +284,9 @@ def run(chk):
             if flags[c] == 'i':      # ids, sequence numbers, counts: every integer-flavoured value
                 todo += [(c, v) for v in INT_VALS]
             elif not quick:
-                todo += [(c, v) for v in range(43)]
+                todo += [(c, v) for v in range(47)]
             else:
-                todo += [(c, rng.randrange(43)) for _ in range(2)]
+                todo += [(c, rng.randrange(47)) for _ in range(2)]
         for (c, v) in todo:
             kind = 'refln' if is_sf and rng.random() < 0.7 else ('st_cif' if rng.random() < 0.7 else rng.choice(kinds))
             lines.append('cifval\t%s %s %d %d %d' % (kind, p_, c, rng.randint(0, 10 ** 6), v))
@@ -332,7 +366,7 @@ def replay(chk, path):
         if pr.returncode != 0:
             chk.violate('crash', 'replayed input fails under valgrind', pr.stderr.decode()[-2000:])
         return
-    exe = F.harness() if r['harness'] == 'h_readers' else fam_sym.harness()
+    exe = F.harness() if r['harness'] == 'h_readers' else F.harness_oper() if r['harness'] == 'h_oper' else fam_sym.harness()
     rc, out, err = vlib.run_lines(exe, [], inp=(r['line'] + '\n').encode())
     print('\n'.join(out), err[-3000:])
     if rc != 0:
